@@ -112,6 +112,9 @@ return __RET
         bb = {'_EST': b['_EST'], '_VAL': b['_VAL']}
         if not m_node(_parse('[EstimationValidation(estimation=_E, validation=_W) for _E, _W in zip(_EST, _VAL)]')[0].value, b['__RET'][1], bb):
             b = None
+    else:
+        # the same folds built in one comprehension
+        b = find(f.node, 'return [EstimationValidation(estimation=pd.concat(_SL[:_I] + _SL[_I + 1:]), validation=_V) for _I, _V in enumerate(_SL)]')
     ctx.add('C13.R3', 'Database.split:folds', b is not None, f, 'estimation part i = all slices but i, validation part = slice i, paired fold by fold' if b is not None else 'construction or pairing of the folds changed', 'folds')
     sl = b['_SL'] if b else '_SL'
     ok = find(f.node, f"""
